@@ -377,4 +377,6 @@ MALFORM = [
     lambda s: "<= " + s.split("<=")[-1] if "<=" in s else "= " + s,
     lambda s: s.replace("<=", "<", 1).replace(">=", ">", 1).replace("==", "=!", 1) if ("<=" in s or ">=" in s or "==" in s) else s + " $",
     blank_inside,
+    lambda s: "(3/(2-2))zq + " + s,       # grammatical, but the constant divides by zero
+    lambda s: "(1/0)zq + " + s,
 ]
